@@ -97,6 +97,11 @@ def in_domain(fmt, value, top=True):
     1000 digits (Python's own int<->str conversion limit is not a format matter)."""
     if value is None or isinstance(value, bool):
         return True
+    if fmt in ("yaml", "pickle") and not isinstance(value, (int, float, str, list, dict, tuple, bytes)):
+        from .jsonx import py_name
+
+        if py_name(value):
+            return True  # the two Python-native formats carry arbitrary Python objects
     if isinstance(value, int):
         if abs(value) >= 10**1000:
             return False
